@@ -186,13 +186,15 @@ type recSectors struct {
 }
 
 func (s *recSectors) ReadSector(root types.Hash256, offset, length uint64) ([]byte, []types.Hash256, error) {
-	s.rec.add(call{Kind: "read", Root: root})
-	return s.Sectors.ReadSector(root, offset, length)
+	d, p, err := s.Sectors.ReadSector(root, offset, length)
+	s.rec.add(call{Kind: "read", Root: root, Err: err})
+	return d, p, err
 }
 
 func (s *recSectors) StoreSector(root types.Hash256, data *[proto4.SectorSize]byte, subtrees []types.Hash256, exp uint64) error {
-	s.rec.add(call{Kind: "store", Root: root})
-	return s.Sectors.StoreSector(root, data, subtrees, exp)
+	err := s.Sectors.StoreSector(root, data, subtrees, exp)
+	s.rec.add(call{Kind: "store", Root: root, Err: err})
+	return err
 }
 
 // ---- the host -------------------------------------------------------------
@@ -419,6 +421,13 @@ func (h *hostEnv) expire(i int, mode string) error {
 		return nil
 	}
 	tip := h.cm.Tip().Height
+	if mode == "height-1" {
+		// one block short of the proof height: still revisable
+		if rs.Revision.ProofHeight > tip+1 && rs.Revision.ProofHeight <= tip+40 {
+			return h.mine(types.VoidAddress, int(rs.Revision.ProofHeight-tip-1))
+		}
+		return nil
+	}
 	if mode == "height" && rs.Revision.ProofHeight <= tip+40 {
 		if err := h.mine(types.VoidAddress, int(rs.Revision.ProofHeight-tip)); err != nil {
 			return err
